@@ -586,6 +586,67 @@ func c07GenReload(r *vfRand, adv bool) (h c07ReloadIn) {
 }
 
 // c07GenBig: the 4 MiB default limit (thorough tier), one direction at a time.
+// c07GenReloadCache: generations of the PIPELINE (pool / proxy serverMaxBodySize, the pool's
+// memoryCache spec) with cacheable GETs before and after every update: an answer cached
+// under one limit must not be served under another generation's limit.
+func c07GenReloadCache(r *vfRand, adv bool) (h c07ReloadIn) {
+	type gen struct {
+		pool, proxy int64
+		cmax        int
+	}
+	lims := []int64{100, 500, 1000, -1, 0}
+	pick := func() (int64, int64) {
+		l := lims[r.Intn(len(lims))]
+		if r.Bool() {
+			return l, 0
+		}
+		return 0, l
+	}
+	g := gen{cmax: r.PickInt(2000, 2000, 300)}
+	g.pool, g.proxy = pick()
+	if adv {
+		g.pool, g.proxy = 0, 1000
+	}
+	gens := []gen{g}
+	for len(gens) < r.Range(2, 4) {
+		n := gens[len(gens)-1]
+		switch r.Intn(5) {
+		case 0, 1, 2: // the limit changes, the cache spec stays
+			n.pool, n.proxy = pick()
+			if adv {
+				n.pool, n.proxy = 0, 100
+			}
+		case 3: // only the cache spec changes
+			n.cmax = r.PickInt(2000, 300, 0)
+		default:
+			n.pool, n.proxy = pick()
+			n.cmax = r.PickInt(2000, 300)
+		}
+		gens = append(gens, n)
+	}
+	sizes := []int{50, 99, 100, 101, 499, 500, 501, 600, 1000, 1001, 1500}
+	for _, g := range gens {
+		for k := r.Range(2, 3); k > 0; k-- {
+			var in c07In
+			in.Pool, in.Proxy, in.CacheMax = g.pool, g.proxy, g.cmax
+			in.Method, in.ReqEnc = "GET", "none"
+			if r.Chance(1, 6) {
+				in.Method, in.ReqEnc, in.ReqDecl, in.ReqBody = "", "cl", 3, []byte("put")
+			}
+			n := sizes[r.Intn(len(sizes))]
+			if adv {
+				n = 600
+			}
+			in.RespStatus, in.RespEnc, in.RespDecl, in.RespBody = r.PickInt(200, 200, 200, 200, 404), "cl", n, c07Bytes(r, n)
+			if r.Chance(1, 4) {
+				in.RespEnc, in.RespChunk, in.RespTerm = "chunked", 64, true
+			}
+			h.Steps = append(h.Steps, in)
+		}
+	}
+	return
+}
+
 func c07GenBig(r *vfRand, k int) (in c07In) {
 	const def = 4 * 1024 * 1024
 	in.RespStatus, in.RespEnc, in.ReqEnc = 200, "cl", "cl"
@@ -640,6 +701,9 @@ func TestVerifC07(t *testing.T) {
 	for i := 0; i < n; i++ {
 		if i%8 == 5 {
 			h := c07GenReload(root.Fork(i), adv)
+			if (i/8)%2 == 1 {
+				h = c07GenReloadCache(root.Fork(i), adv)
+			}
 			out.Emit(vfCase{ID: fmt.Sprintf("%s-reload-%d", src, i), Src: src, Grp: "reload", In: h, Obs: c07RunReload(&h)})
 			continue
 		}
